@@ -296,21 +296,21 @@ class BasisSHO(BasisSet):
             if self.dvr:
                 mat = self.dvr_v.T @ mat @ self.dvr_v
 
-        elif op_symbol == "x p":
+        elif op_symbol == "p x":
             mat = -1.0j/2 *(self.op_mat(r"b b")
                     - self.op_mat(r"b^\dagger b^\dagger")
                     + self.op_mat(r"b b^\dagger")
-                    - self.op_mat(r"b^\dagger b"))
+                    - self.op_mat(r"b^\dagger b")) + self.x0 * self.op_mat("p")
 
         elif op_symbol == "x dx":
             # x dx is real, while x p is imaginary
             mat = (self.op_mat("x p") / -1.0j).real
 
-        elif op_symbol == "p x":
+        elif op_symbol == "x p":
             mat = -1.0j/2 *(self.op_mat(r"b b")
                     - self.op_mat(r"b^\dagger b^\dagger")
                     - self.op_mat(r"b b^\dagger")
-                    + self.op_mat(r"b^\dagger b"))
+                    + self.op_mat(r"b^\dagger b")) + self.x0 * self.op_mat("p")
 
         elif op_symbol == "dx x":
             mat = (self.op_mat("p x") / -1.0j).real
